@@ -326,6 +326,32 @@ def decorate(rng, schema, funcs):
             if d.name.startswith("dir") and rng.random() < 0.3:
                 a.python_name = "pd_" + a.name
     schema.default_resolver = funcs.make(universal_resolver)
+    refresh_defaults(schema)
+
+
+def refresh_defaults(schema):
+    """The python names of input fields were just assigned in code: the default values (coerced when the schema was built, input
+    objects keyed by the OLD python names) are evaluated again from their literals, so that every default IS a value of its type
+    - the invariant the library keeps (CamelCaseSchemaTransform leaves python names alone for that reason)."""
+    from py_gql.schema import InputObjectType, InterfaceType, ObjectType
+    from py_gql.utilities import value_from_ast
+    members = []
+    for n, t in schema.types.items():
+        if n.startswith("__"):
+            continue
+        if isinstance(t, (ObjectType, InterfaceType)):
+            members += [a for f in t.fields for a in f.arguments]
+        elif isinstance(t, InputObjectType):
+            members += list(t.fields)
+    for d in schema.directives.values():
+        members += list(d.arguments)
+    for el in members:
+        node = getattr(el, "node", None)
+        if el.has_default_value and node is not None and getattr(node, "default_value", None) is not None:
+            try:
+                el.default_value = value_from_ast(node.default_value, el.type)
+            except Exception:  # noqa
+                pass
 
 
 def registry_digest(schema):
